@@ -120,8 +120,8 @@ func (c *Ctx) pcFields() (map[string]*pcField, int) {
 func ruleRelocationComplete(c *Ctx, rule string) {
 	r := c.R
 	P, ngen := c.pcFields()
-	r.Floor(rule, "generator functions analysed for offset taint", ngen, 19)
-	r.Floor(rule, "pc-carrying instruction fields (set P)", len(P), 8)
+	r.Floor(rule, "generator functions analysed for offset taint", ngen, 12)
+	r.Floor(rule, "pc-carrying instruction fields (set P)", len(P), 6)
 	var keys []string
 	for k := range P {
 		keys = append(keys, k)
